@@ -170,7 +170,8 @@ def witness(case, **extra):
 
 def check_single(ctx, case):
     sig = sig_of(case)
-    ds = build_ds(case)
+    # the dataset may have been copied / pickled by the caller before it is handed over
+    ds, _ = gen.derived(ctx.rng, build_ds(case), gen.pick(ctx.rng, ['fresh', 'fresh', 'copy', 'deepcopy', 'pickle']))
     kw = kwargs_of(case)
     ok, rdms = ctx.guarded('single_vs_reference', sig, calc_rdm, ds, data=lambda: witness(case), **kw)
     if not ok:
